@@ -173,8 +173,9 @@ fn gen_body(rng: &mut Rng, big: bool) -> String {
         0 => format!("V:{}", enc(&content)),
         1 => format!("B:{}", enc(&content)),
         2 => {
-            let text: Vec<u8> = content.iter().map(|b| 0x20 + b % 0x5f).collect();
-            format!("S:{}", enc(&text))
+            // static str bodies: ASCII and multi-byte UTF-8 text
+            let text: String = content.iter().map(|b| match b % 23 { 0 => 'é', 1 => '€', 2 => '\u{10348}', _ => (0x20 + b % 0x5f) as char }).collect();
+            format!("S:{}", enc(text.as_bytes()))
         }
         3 => format!("F:{}:{}", n, enc(&content)),
         4 => format!("T:{}:{}", n, enc(&content)),
@@ -182,7 +183,9 @@ fn gen_body(rng: &mut Rng, big: bool) -> String {
             let k = rng.below(5);
             let evs: Vec<String> = (0..k)
                 .map(|_| {
-                    let d: String = (0..rng.range(1, 30)).map(|_| *rng.pick(&['a', 'b', ' ', '\n', ':', 'é'])).collect();
+                    // payload lengths around the chunk-size digit boundaries (16, 256, 4096 bytes per read) and small ones
+                    let target = match rng.below(4) { 0 => *rng.pick(&[16usize, 256, 4096]) + rng.below(5) as usize - 2 - 7, 1 => rng.range(1, 6000) as usize, _ => rng.range(1, 30) as usize };
+                    let d: String = (0..target.max(1)).map(|_| *rng.pick(&['a', 'b', ' ', '\n', ':', 'é'])).collect();
                     let d = format!("x{d}");
                     if rng.chance(1, 3) { format!("c{}.{}", hex(b"upd"), hex(d.as_bytes())) } else { format!("m{}", hex(d.as_bytes())) }
                 })
